@@ -100,34 +100,34 @@ func c03PermGrants(p c03Perm, publish bool, path string) bool {
 // strictPass: the protocol verifies a challenge response computed from the password (RTSP with digest
 // enabled), so only the exact configured plaintext can succeed.
 func c03UserAdmits(u c03User, cr c03Creds, ip netip.Addr, publish bool, path string, strictPass bool) bool {
-	ipOK := len(u.nets) == 0
+	ipOK, permOK, credOK := c03UserParts(u, cr, ip, publish, path, strictPass)
+	return ipOK && permOK && credOK
+}
+
+// c03UserParts evaluates the three clauses of one user entry separately (the split is only used for measurement).
+func c03UserParts(u c03User, cr c03Creds, ip netip.Addr, publish bool, path string, strictPass bool) (ipOK, permOK, credOK bool) {
+	ipOK = len(u.nets) == 0
 	for _, n := range u.nets {
 		if c03NetContains(n, ip) {
 			ipOK = true
 		}
 	}
-	if !ipOK {
-		return false
-	}
-	permOK := false
 	for _, p := range u.perms {
 		if c03PermGrants(p, publish, path) {
 			permOK = true
 		}
 	}
-	if !permOK {
-		return false
+	switch {
+	case u.anyUser:
+		credOK = true
+	case cr.user != u.name:
+		credOK = false
+	case u.passEnc == "empty" && !strictPass:
+		credOK = true // no password configured
+	default:
+		credOK = cr.pass == u.pass
 	}
-	if u.anyUser {
-		return true
-	}
-	if cr.user != u.name {
-		return false
-	}
-	if u.passEnc == "empty" && !strictPass {
-		return true // no password configured
-	}
-	return cr.pass == u.pass
+	return ipOK, permOK, credOK
 }
 
 func c03Admits(users []c03User, cr c03Creds, ip netip.Addr, publish bool, path string, strictPass bool) bool {
